@@ -378,7 +378,14 @@ def run_c14_steps(ctx, ses, plan_steps):
                                 {"latest_complete_generation": g, "copies": [c[:2] if c else None for c in copies]})
         gens = [c[1] for c in copies if c and c[0] == "gen"]
         slots = [(c[1] if c and c[0] == "gen" else (None if c is None else "unloadable")) for c in copies]
-        if failed and state.get("slots_before") is not None and slots != state["slots_before"]:
+        hit_rollback = len(getattr(ses, "save_fired", [])) > 1
+        if failed and state.get("slots_before") is not None and hit_rollback:
+            # the fault fired again after the save had already failed (a transient error that outlasts the first
+            # failure also hits the moving-back): the statement only demands that nothing is lost and order is kept
+            ctx.count("fault_also_hit_rollback", 1, "reach")
+            if [x for x in slots if x is not None] != [x for x in state["slots_before"] if x is not None]:
+                raise Violation("C14/failed-save-lost-a-kept-generation/" + what, {"before": state["slots_before"], "after": slots})
+        elif failed and state.get("slots_before") is not None and slots != state["slots_before"]:
             # a failed save leaves no residue: the same generations in the same slots as before the attempt
             raise Violation("C14/failed-save-changed-the-kept-generations/" + what, {"before": state["slots_before"], "after": slots})
         stray = sorted(n for n in os.listdir(ses.dir) if n.startswith("model") and n not in ("model", "model_BAK1", "model_BAK2", "model_BAK3"))
